@@ -136,6 +136,7 @@ func vassert(bool, string)
 func vreach(string)
 func vobserve(string, any)
 func vconcrete(int) int
+func vchoose(int) int
 func vsetfield(obj any, name string, v any)
 func vgetfield(obj any, name string) any
 func vcapture()
@@ -228,6 +229,12 @@ func vassert(b bool, msg string) {
 }
 func vreach(string)     {}
 func vconcrete(x int) int { return x }
+func vchoose(n int) int {
+	if n <= 0 {
+		panic(vAssumeFailed{})
+	}
+	return int(vnext() % uint64(n))
+}
 func vobserve(label string, v any) { vObs = append(vObs, label+"="+vrender(vreflect.ValueOf(v))) }
 
 func vrender(v vreflect.Value) string {
